@@ -444,6 +444,29 @@ def check_sum_loop(ctx, fn, callee_name, label, needs_empty_exit):
         ctx.ok(site(fn, 0), "%s: empty pattern ⇒ Some(0)%s" % (label, "" if ok_e else " (through the general path)"))
 
 
+def _side_stages(fn, term, arg_index):
+    """Stages of one iterator operand that are not position preserving and total (a filter, skip, rev, ... on one side
+    of a zip or in front of the loop changes which element is paired with / reaches which)."""
+    out = []
+    for st in iter_pipeline(fn, term, arg_index):
+        k = st[0]
+        if k == "source" or k in ("zip", "zip-unbounded"):
+            continue
+        if k.startswith("total:") and k != "total:rev":
+            continue
+        if k.startswith("unknown:") and k.split(":", 1)[1] in ("arg", "local", "field", "ref", "deref", "index", "subslice"):
+            continue            # a plain place used as the iterable
+        out.append(k.split(":", 1)[-1])
+    return out
+
+
+def _bad_stages(fn, iter_terms):
+    out = []
+    for t in iter_terms:
+        out += _side_stages(fn, t, 0)
+    return out
+
+
 def rule_sum_and_propagate(ctx):
     facts = ctx.facts
     ps = get_fn(facts, M, "pattern::Pattern::score")
@@ -462,7 +485,10 @@ def rule_sum_and_propagate(ctx):
         its = [t for bi, t in fn.calls(lambda t: callee(t).endswith("IntoIterator::into_iter") or callee(t).endswith("::into_iter") or callee(t).endswith("[T]>::iter"))]
         okf = any(any(x[0] == "field" and x[2] == fld for x in walk(fn.expr_of_operand(t["args"][0]))) for t in its)
         rev = any(callee(t).endswith("Iterator::rev") for bi, t in fn.calls())
-        if okf and not rev:
+        bad = _bad_stages(fn, [t for t in its if any(x[0] == "field" and x[2] == fld for x in walk(fn.expr_of_operand(t["args"][0])))])
+        if bad:
+            ctx.violation("%s|iteration|2" % fn.path, site(fn, 0), "stage `%s` between self.%s and the loop can skip, reorder or cut off atoms" % (bad[0], fld))
+        elif okf and not rev:
             ctx.ok(site(fn, 0), "iterates self.%s front to back" % fld)
         else:
             ctx.violation("%s|iteration|1" % fn.path, site(fn, 0), "does not iterate over self.%s in order" % fld)
@@ -472,7 +498,10 @@ def rule_sum_and_propagate(ctx):
     if z:
         a = mp.expr_of_operand(z[0][1]["args"][0])
         b = mp.expr_of_operand(z[0][1]["args"][1])
-        if any(x[0] == "field" and x[2] == "cols" for x in walk(a)) and b[0] == "arg" and b[2] == "haystack":
+        bad = [st for side in (0, 1) for st in _side_stages(mp, z[0][1], side)]
+        if bad:
+            ctx.violation("pattern::MultiPattern::score|zip|2", site(mp, z[0][0]), "stage `%s` on one side of the zip shifts the pairing of column patterns and column haystacks" % bad[0])
+        elif any(x[0] == "field" and x[2] == "cols" for x in walk(a)) and peel(b)[0] == "arg" and peel(b)[2] == "haystack":
             ctx.ok(site(mp, z[0][0]), "column i's pattern is matched against column i's haystack (zip of self.cols with the item's columns)")
         else:
             ctx.violation("pattern::MultiPattern::score|zip|1", site(mp, z[0][0]), "columns are paired as zip(%s, %s)" % (show(a)[:50], show(b)[:50]))
